@@ -702,7 +702,7 @@ func ruleRowCache(p *Prog, r *Result) {
 			r.add(fromRow && !fresh, fmt.Sprintf("%s|group-pair|Execute#%d", p.FName(fn), ord), p.InstrPos(in), "the field of a group is evaluated on a pair kept in the group's row (on an empty pair a GROUP BY value standing next to an aggregate silently evaluates to nothing)")
 		})
 	}
-	r.floor("field evaluations of completed groups", nGroupEval, 2)
+	r.floor("field evaluations of completed groups", nGroupEval, 1)
 	// an alias reference always memoises: evaluated without a context (the library does that itself: arguments
 	// evaluated row by row inside a batch, the filter below an aggregate) a reference would recompute the field it
 	// stands for, and a chain of fields that each use the previous one twice costs 2^n evaluations. The context the
